@@ -151,7 +151,10 @@ def run_check(pid, tier, modname, stub_modules, level_text, assumptions, bounds,
     n_points = 0
     for ob in obs:
         pts = []
-        for pi, env in enumerate(ob.points):
+        # obligations without explicit points get auto-filled ones (every variable / selector drawn from its declared
+        # range with a VERIF_SEED-dependent generator): the real code runs unproxied on real numpy there, which also
+        # exposes behaviour the proxies cannot show (e.g. numpy scalars vs zero-dimensional arrays)
+        for pi, env in enumerate(ob.points or [{} for _ in range(int(ob.opts.get('auto_points', 3)))]):
             fails, cx, exc = run_concrete(ob, env, auto_fill=f'{seed}:{pi}')
             n_points += 1
             env = dict(env)
